@@ -234,7 +234,7 @@ def file_stream_rich(ctx, rng, count):
         kinds = []
         nblk = rng.randint(3, 7)
         for b in range(nblk):
-            kind = rng.choice(['sinc', 'sinc', 'block', 'ext', 'ext1', 'arb', 'twins'])
+            kind = rng.choice(['sinc', 'sinc', 'block', 'ext', 'ext1', 'arb', 'arb', 'twins', 'twinarb'])
             kinds.append(kind)
             if kind == 'sinc':
                 # same envelope at different flip angles: the normalised magnitude shapes are equal up to rounding noise
@@ -254,6 +254,14 @@ def file_stream_rich(ctx, rng, count):
                 w = np.cumsum(np.array([rng.uniform(-1, 1) for _ in range(n)])) * 1e3
                 w[-1] = 0.0
                 evs = [pp.make_arbitrary_grad(rng.choice('xyz'), w, first=0.0, last=0.0, system=system)]
+            elif kind == 'twinarb':
+                # two raster-sampled shapes equal up to noise far below the 9-digit rounding (they merge, the ids of
+                # every later amplitude shape shift by one)
+                n = rng.randint(20, 60)
+                kk = (np.arange(n) + 0.5) / n
+                base = np.sin(math.pi * kk) * rng.choice([1e5, -4e4])
+                evs = [pp.make_arbitrary_grad('x', base, first=0.0, last=0.0, system=system),
+                       pp.make_arbitrary_grad('y', base * (1 + 1e-13 * np.cos(7 * math.pi * kk)), first=0.0, last=0.0, system=system)]
             else:
                 # two 4-point shapes differing far below the 9-digit rounding: they merge and later ids are renumbered
                 base = np.array([0.0, 1e5, 5e4, 0.0])
@@ -268,6 +276,33 @@ def file_stream_rich(ctx, rng, count):
         if not seq.block_events:
             continue
         case = {'kind': 'file-rich', 'raster': r, 'blocks': kinds, 'index': k}
+        # history in memory: decode every block, remove duplicates in place (ids are renumbered), decode again
+        if rng.random() < 0.5:
+            import copy as _copy
+            sb = _copy.deepcopy(seq)
+            before = {i: sb.get_block(i) for i in sb.block_events}
+            try:
+                sb.remove_duplicates(in_place=True)
+                after = {i: sb.get_block(i) for i in sb.block_events}
+            except Exception as e:  # noqa: BLE001
+                ctx.fail('C14/dedup-history-raises', case, {'exception': repr(e)[:200]})
+                after = None
+            if after is not None:
+                for i in before:
+                    bad = None
+                    for ch in ('gx', 'gy', 'gz'):
+                        g0, g1 = getattr(before[i], ch), getattr(after[i], ch)
+                        if g0 is None or g0.type != 'grad':
+                            continue
+                        if g1 is None or len(g1.waveform) != len(g0.waveform):
+                            bad = ch + ' length'
+                        else:
+                            full = float(np.max(np.abs(g0.waveform))) or 1.0
+                            if float(np.max(np.abs(np.asarray(g0.waveform) - np.asarray(g1.waveform)))) > (1.1e-7 + 5.1e-6) * full:
+                                bad = ch + ' waveform'
+                    if bad:
+                        ctx.fail('C14/dedup-history', dict(case, block=int(i)), {'what': bad})
+                        break
         with tempfile.TemporaryDirectory(prefix='pvC14r') as d:
             fn = os.path.join(d, 'a.seq')
             dedup_on_write = rng.random() < 0.6
@@ -278,11 +313,19 @@ def file_stream_rich(ctx, rng, count):
                 ctx.count('file_rich.skipped_write_assertion')
                 continue
             s2 = pp.Sequence()            # default system: 10 us gradient raster
-            s2.read(fn)
+            try:
+                s2.read(fn)
+            except Exception as e:  # noqa: BLE001
+                ctx.fail('C14/file-rich-raises', case, {'exception': repr(e)[:200], 'where': 'read'})
+                continue
         ctx.evaluated(('file-rich', k, r, tuple(kinds)))
         ctx.count('stream.file_rich')
         for i in seq.block_events:
-            b0, b1 = seq.get_block(i), s2.get_block(i)
+            try:
+                b0, b1 = seq.get_block(i), s2.get_block(i)
+            except Exception as e:  # noqa: BLE001
+                ctx.fail('C14/file-rich-raises', dict(case, block=int(i)), {'exception': repr(e)[:200]})
+                break
             bad = None
             if (b0.rf is None) != (b1.rf is None):
                 bad = 'rf presence'
